@@ -15,6 +15,7 @@ REPO = os.environ.get("VERIF_REPO", "/repo")
 BUILD = os.path.join(VERIF, "build")
 COQ = os.path.join(VERIF, "coq")
 GOENV = dict(os.environ, GOFLAGS="-mod=mod", GOPROXY="off", CGO_ENABLED=os.environ.get("CGO_ENABLED", "1"))
+GOENV["GORACE"] = "atexit_sleep_ms=0"
 GOENV.pop("GOTOOLCHAIN", None)
 GOENV.pop("GOSUMDB", None)
 
